@@ -254,6 +254,59 @@ impl<R: RTraits> TileManager<R> {
     }
 }
 
+/// Read-only view of the internal maps, used by external verification tooling only.
+#[cfg(feature = "verif")]
+#[derive(Debug, Clone, PartialEq, Eq)]
+pub struct VerifSnapshot {
+    /// `tile_id` -> `Ok(hash)` for in-memory tiles, `Err((offset, length))` for reader-backed ones (sorted by id)
+    pub tile_by_id: Vec<(u64, std::result::Result<u64, (u64, u32)>)>,
+    /// hash -> stored bytes (sorted by hash)
+    pub data_by_hash: Vec<(u64, Vec<u8>)>,
+    /// hash -> sorted ids referring to it (sorted by hash)
+    pub ids_by_hash: Vec<(u64, Vec<u64>)>,
+}
+
+#[cfg(feature = "verif")]
+impl<R> TileManager<R> {
+    pub fn verif_snapshot(&self) -> VerifSnapshot {
+        let mut tile_by_id = self
+            .tile_by_id
+            .iter()
+            .map(|(id, t)| {
+                (
+                    *id,
+                    match t {
+                        TileManagerTile::Hash(h) => Ok(*h),
+                        TileManagerTile::OffsetLength(o, l) => Err((*o, *l)),
+                    },
+                )
+            })
+            .collect::<Vec<_>>();
+        tile_by_id.sort();
+        let mut data_by_hash = self
+            .data_by_hash
+            .iter()
+            .map(|(h, d)| (*h, d.clone()))
+            .collect::<Vec<_>>();
+        data_by_hash.sort();
+        let mut ids_by_hash = self
+            .ids_by_hash
+            .iter()
+            .map(|(h, ids)| {
+                let mut v = ids.iter().copied().collect::<Vec<_>>();
+                v.sort_unstable();
+                (*h, v)
+            })
+            .collect::<Vec<_>>();
+        ids_by_hash.sort();
+        VerifSnapshot {
+            tile_by_id,
+            data_by_hash,
+            ids_by_hash,
+        }
+    }
+}
+
 impl Default for TileManager<Cursor<&[u8]>> {
     fn default() -> Self {
         Self::new(None)
